@@ -141,7 +141,8 @@ func (u *c04Universe) events() []c04Ev {
 	return evs
 }
 
-func c04Universes(thorough bool) *c04Universe {
+func c04Universes(kind string) *c04Universe {
+	thorough := kind == "t"
 	http := func(proto string, port uint16) c04Port { return c04Port{"http", proto, port} }
 	u := &c04Universe{
 		name: "q",
@@ -150,7 +151,8 @@ func c04Universes(thorough bool) *c04Universe {
 			"e1": {
 				{Labels: map[string]string{"a": "1"}, Nets: []string{"10.0.0.1/32"}, Ports: []c04Port{http("tcp", 80)}, Parents: []string{"p1"}},
 				{Labels: nil, Nets: []string{"10.0.0.1/32", "10.0.0.1/32"}, Ports: []c04Port{http("udp", 80)}, Parents: []string{"p1", "p1"}},
-				{Labels: map[string]string{"a": "2"}, Nets: []string{"10.0.0.2/32"}, Ports: []c04Port{http("tcp", 80), http("udp", 53), {"other", "tcp", 80}}},
+				// 10.0.0.0 is also the base address of the network set's /24 and /25 (host first, wider CIDR later)
+				{Labels: map[string]string{"a": "2"}, Nets: []string{"10.0.0.0/32"}, Ports: []c04Port{http("tcp", 80), http("udp", 53), {"other", "tcp", 80}}},
 			},
 			"e2": {
 				{Labels: map[string]string{"a": "1"}, Nets: []string{"10.0.0.1/32"}, Ports: []c04Port{http("tcp", 80)}},
@@ -164,7 +166,8 @@ func c04Universes(thorough bool) *c04Universe {
 		nsVars: map[string][]*c04EpVar{
 			"n1": {
 				{Labels: map[string]string{"a": "1"}, Nets: []string{"10.0.0.0/24", "10.0.0.0/25"}},
-				{Labels: nil, Nets: []string{"10.0.0.1/32", "10.0.0.0/24", "10.0.0.0/24"}, Parents: []string{"p1"}},
+				// narrow before wide (same base address), a /32 inside, a duplicate
+				{Labels: nil, Nets: []string{"10.0.0.0/25", "10.0.0.1/32", "10.0.0.0/24", "10.0.0.0/24"}, Parents: []string{"p1"}},
 				{Labels: map[string]string{"a": "1"}, Nets: []string{"0.0.0.0/0", "10.0.0.0/25"}},
 				{Labels: map[string]string{"b": "1"}, Nets: []string{"0.0.0.0/1", "0.0.0.0/0", "10.0.0.128/25"}},
 			},
@@ -180,15 +183,25 @@ func c04Universes(thorough bool) *c04Universe {
 			{Sel: `a == "1"`, Proto: "udp", Port: "http"},
 		},
 	}
-	if thorough {
-		u.name = "t"
+	if kind == "m" || kind == "t" {
+		// second parent, an endpoint that lists two parents (both orders), a third endpoint
+		u.name = "m"
+		u.parents = append(u.parents, "p2")
+		u.epVars["e1"] = append(u.epVars["e1"],
+			&c04EpVar{Labels: map[string]string{"a": "1"}, Nets: []string{"10.0.0.1/32"}, Ports: []c04Port{http("tcp", 80)}, Parents: []string{"p1", "p2"}},
+			&c04EpVar{Labels: map[string]string{"a": "1"}, Nets: []string{"10.0.0.1/32"}, Ports: []c04Port{http("tcp", 80)}, Parents: []string{"p2", "p1"}})
 		u.eps = append(u.eps, "e3")
 		u.epVars["e3"] = []*c04EpVar{
-			{Labels: map[string]string{"b": "2"}, Nets: []string{"10.0.0.1/32", "fe80::1/128"}, Ports: []c04Port{http("tcp", 80)}, Parents: []string{"p2", "p1"}},
-			{Labels: map[string]string{"a": "1", "b": "1"}, Nets: []string{"10.0.0.129/32"}, Parents: []string{"p1", "p2", "p1"}},
+			{Labels: map[string]string{"a": "2"}, Nets: []string{"10.0.0.3/32"}, Ports: []c04Port{http("udp", 80)}},
+			{Labels: nil, Nets: []string{"10.0.0.1/32", "10.0.0.3/32"}, Parents: []string{"p2", "p1"}},
 		}
+	}
+	if thorough {
+		u.name = "t"
+		u.epVars["e3"] = append(u.epVars["e3"],
+			&c04EpVar{Labels: map[string]string{"b": "2"}, Nets: []string{"10.0.0.1/32", "fe80::1/128"}, Ports: []c04Port{http("tcp", 80)}, Parents: []string{"p2", "p1"}},
+			&c04EpVar{Labels: map[string]string{"a": "1", "b": "1"}, Nets: []string{"10.0.0.129/32"}, Parents: []string{"p1", "p2", "p1"}})
 		u.nsVars["n1"] = append(u.nsVars["n1"], &c04EpVar{Labels: map[string]string{"a": "2"}, Nets: []string{"::/0", "fe80::/10", "10.0.0.0/24"}, Parents: []string{"p2"}})
-		u.parents = append(u.parents, "p2")
 		u.sets = append(u.sets, &c04SetVar{Sel: `a in {"1","2"} && !has(b)`}, &c04SetVar{Sel: `b == "1"`, Proto: "tcp", Port: "http"})
 		u.reuseIDs = []string{"R1"}
 	}
@@ -473,6 +486,28 @@ func c04Check(s *c04State, hist []c04Ev) []hbfs.Fail {
 		sv := s.u.sets[v]
 		E := s.emitted[id]
 		desc := fmt.Sprintf("IP set %s (%s %s/%s)", id, sv.Sel, sv.Proto, sv.Port)
+		// "each member once however many endpoints contribute it" rests on memberToRefCount holding,
+		// per member, exactly the number of current contributions (a wrong count surfaces later as a
+		// member that is withdrawn too early or never)
+		if d := s.idx.ipSetDataByID[id]; d != nil {
+			Rc := s.u.reference(s.env, sv, true)
+			got := map[string]int{}
+			for m, n := range d.memberToRefCount {
+				got[m.ToProtobufFormat()] = int(n)
+			}
+			for m, n := range Rc {
+				if got[m] != n {
+					add("refcount-differs-from-contributions", "%s: member %s has reference count %d but %d current contributions (all counts %v, contributions %v)", desc, m, got[m], n, got, Rc)
+					break
+				}
+			}
+			for m, n := range got {
+				if Rc[m] == 0 {
+					add("refcount-differs-from-contributions", "%s: member %s has reference count %d but no current contribution", desc, m, n)
+					break
+				}
+			}
+		}
 		if !s.suppress || sv.Proto != "" {
 			R := s.u.reference(s.env, sv, true)
 			var missing, extra []string
@@ -679,6 +714,21 @@ func c04PanicLine(val string) string {
 	return line
 }
 
+// c04Prefixes returns the populated start environments for the medium universe.
+func c04Prefixes(u *c04Universe) [][]c04Ev {
+	var allSets []c04Ev
+	for v := range u.sets {
+		allSets = append(allSets, c04Ev{"SET", fmt.Sprintf("S%d", v), v})
+	}
+	// parents p1,p2 both carry b=1 (label b lives on parents only); e1 lists both parents; e2, e3 and
+	// the network set have no parents
+	pop := []c04Ev{{"PL", "p1", 1}, {"PL", "p2", 1}, {"EP", "e1", 3}, {"EP", "e2", 2}, {"EP", "e3", 0}, {"NS", "n1", 0}}
+	// IP sets first, parents with different labels
+	setsFirst := append(append([]c04Ev{}, allSets...), c04Ev{"PL", "p1", 1}, c04Ev{"PL", "p2", 0})
+	both := append(append([]c04Ev{}, pop...), allSets...)
+	return [][]c04Ev{pop, setsFirst, both}
+}
+
 func c04HasDup(l []string) bool {
 	for i := range l {
 		for j := i + 1; j < len(l); j++ {
@@ -690,7 +740,7 @@ func c04HasDup(l []string) bool {
 	return false
 }
 
-func c04Spec(u *c04Universe, suppress bool, depth int, tree bool, workers int, filter func(c04Ev) bool, tag string) *hbfs.Spec[*c04State, c04Ev] {
+func c04Spec(u *c04Universe, suppress bool, depth int, tree bool, workers int, filter func(c04Ev) bool, tag string, prefix []c04Ev) *hbfs.Spec[*c04State, c04Ev] {
 	var evs []c04Ev
 	for _, e := range u.events() {
 		if filter == nil || filter(e) {
@@ -703,7 +753,13 @@ func c04Spec(u *c04Universe, suppress bool, depth int, tree bool, workers int, f
 	}
 	sp := &hbfs.Spec[*c04State, c04Ev]{
 		Name:     fmt.Sprintf("npidx-%s%s-%s-%s-d%d", u.name, tag, mode, map[bool]string{true: "tree", false: "graph"}[tree], depth),
-		New:      func() *c04State { return c04New(u, suppress) },
+		New: func() *c04State {
+			s := c04New(u, suppress)
+			for _, e := range prefix {
+				c04Apply(s, e)
+			}
+			return s
+		},
 		Apply:    c04Apply,
 		Enabled:  func(s *c04State, d int) []c04Ev { return evs },
 		Check:    c04Check,
@@ -735,6 +791,9 @@ func c04Spec(u *c04Universe, suppress bool, depth int, tree bool, workers int, f
 		},
 		PanicKey: func(val string, hist []c04Ev) string {
 			env := c04NewEnv()
+			for _, e := range prefix {
+				env.apply(e)
+			}
 			for _, e := range hist[:len(hist)-1] {
 				env.apply(e)
 			}
@@ -779,7 +838,9 @@ func TestVerif_C04(t *testing.T) {
 		c.Assume("when two parents carry the same label the first parent in the list wins (statement is silent; the index does this)")
 		c.Assume("removal of a whole IP set is en masse: the harness forgets the set's members on DeleteIPSet, as the calc graph does")
 		workers := c.Pick(6, 8)
-		u := c04Universes(c.Thorough())
+		u := c04Universes(map[bool]string{false: "q", true: "t"}[c.Thorough()])
+		um := c04Universes("m")
+		prefixes := c04Prefixes(um)
 		noDup := func(e c04Ev) bool {
 			switch e.Op {
 			case "EP":
@@ -798,13 +859,22 @@ func TestVerif_C04(t *testing.T) {
 				c.ToolError(err.Error())
 				return
 			}
-			ru := u
-			if strings.HasPrefix(d.Spec, "npidx-t") && !c.Thorough() {
-				ru = c04Universes(true)
-			} else if strings.HasPrefix(d.Spec, "npidx-q") && c.Thorough() {
-				ru = c04Universes(false)
+			var ru *c04Universe
+			var prefix []c04Ev
+			switch {
+			case strings.HasPrefix(d.Spec, "npidx-t"):
+				ru = c04Universes("t")
+			case strings.HasPrefix(d.Spec, "npidx-m"):
+				ru = um
+				for i, p := range prefixes {
+					if strings.Contains(d.Spec, fmt.Sprintf("-pre%d-", i)) {
+						prefix = p
+					}
+				}
+			default:
+				ru = c04Universes("q")
 			}
-			sp := c04Spec(ru, strings.Contains(d.Spec, "-suppress-"), 99, false, 1, nil, "")
+			sp := c04Spec(ru, strings.Contains(d.Spec, "-suppress-"), 99, false, 1, nil, "", prefix)
 			fails, err := hbfs.Replay(sp, d.History)
 			if err != nil {
 				c.ToolError(err.Error())
@@ -819,7 +889,7 @@ func TestVerif_C04(t *testing.T) {
 		}
 		uq := u
 		if c.Thorough() {
-			uq = c04Universes(false)
+			uq = c04Universes("q")
 		}
 		noDupQ := func(e c04Ev) bool {
 			switch e.Op {
@@ -834,21 +904,31 @@ func TestVerif_C04(t *testing.T) {
 		c.Sample(map[string]any{"mode": "suppress", "history": []string{"SET(S0,0)", "NS(n1,0)", "EP(e1,0)", "NSDEL(n1,0)"},
 			"meaning": "IP set S0=all(); network set n1 {10.0.0.0/24, 10.0.0.0/25} -> only the /24 is emitted; endpoint e1 10.0.0.1 is masked; deleting n1 must withdraw the /24 and expose 10.0.0.1/32"})
 		for _, suppress := range []bool{false, true} {
-			// graph mode, base universe (incl. duplicate parent lists); quick: depth 6 reaches every
-			// environment of the universe, thorough: run to fixpoint
-			d := c.Pick(6, 30)
-			st := hbfs.Explore(c, c04Spec(uq, suppress, d, false, workers, nil, ""))
+			// graph mode, base universe (incl. duplicate parent lists); quick: depth 5 (depth 6 would reach every
+			// environment of the universe; deeper interactions are reached from the populated starts below), thorough: fixpoint
+			d := c.Pick(5, 30)
+			st := hbfs.Explore(c, c04Spec(uq, suppress, d, false, workers, nil, "", nil))
 			c.Extra(fmt.Sprintf("fixpoint_reached_suppress_%v", suppress), st.Complete && st.Depth < d)
 			// tree mode (every history, no merging) without the duplicate-parent variants, so that the
 			// known panic class cannot stand in for anything else
-			hbfs.Explore(c, c04Spec(uq, suppress, c.Pick(3, 4), true, workers, noDupQ, "-nodup"))
+			hbfs.Explore(c, c04Spec(uq, suppress, c.Pick(3, 4), true, workers, noDupQ, "-nodup", nil))
+		}
+		// populated start states (medium universe: second parent, endpoints listing two parents in
+		// both orders, third endpoint): the search starts from an environment that already holds
+		// parents+endpoints / IP sets / both, so that late arrivals and removals against a populated
+		// index are reached at small depth
+		c.Extra("alphabet_size_medium", len(um.events()))
+		for i, pre := range prefixes {
+			for _, suppress := range []bool{false, true} {
+				hbfs.Explore(c, c04Spec(um, suppress, c.Pick(3, 4), false, workers, nil, fmt.Sprintf("-pre%d", i), pre))
+			}
 		}
 		if c.Thorough() {
 			// larger universe (third endpoint with IPv6, second parent, 8 IP sets, an IP-set id whose
 			// content changes in place): depth-bounded graph search
 			c.Extra("alphabet_size_large", len(u.events()))
-			hbfs.Explore(c, c04Spec(u, true, 5, false, workers, nil, ""))
-			hbfs.Explore(c, c04Spec(u, false, 4, false, workers, nil, ""))
+			hbfs.Explore(c, c04Spec(u, true, 5, false, workers, nil, "", nil))
+			hbfs.Explore(c, c04Spec(u, false, 4, false, workers, nil, "", nil))
 			_ = noDup
 		}
 	})
